@@ -218,12 +218,15 @@ def uidOf (n : Nat) : Option Nat := if n = UID_UNSET then none else some n
 
 /-! ### mechanisms -/
 
+/-- "this is our auth identity": a non-empty argument becomes the identity -/
+def withIdentity (s : S) (data : Bytes) : S := if data ≠ [] then { s with identity := data } else s
+
 /-- handle_server_data_external_mech -/
 def externalData (env : Env) (s : S) (data : Bytes) : S :=
   if env.sock.anonymous then sendRejected env s
   else if data ≠ [] ∧ s.identity ≠ [] then sendRejected env s
   else
-    let s := if data ≠ [] then { s with identity := data } else s
+    let s := withIdentity s data
     if s.identity = [] ∧ !s.asked then
       { sendData s [] with asked := true, phase := .waitingForData }
     else
@@ -255,7 +258,7 @@ def cookieFirst (env : Env) (s : S) (data : Bytes) : S :=
   let s := { s with challenge := [] }
   if data ≠ [] ∧ s.identity ≠ [] then sendRejected env s
   else
-    let s := if data ≠ [] then { s with identity := data } else s
+    let s := withIdentity s data
     match env.userOf data with
     | none => sendRejected env s
     | some u =>
